@@ -1,60 +1,206 @@
 #!/usr/bin/env python3
-"""Generates units/C09/units.json (array-list units are instantiated per element size; see DESIGN C09).
-Run: python3 units/C09/gen_units.py   (the check never runs this; units.json is the committed artefact)."""
+"""Generates units/C09/units.json.  The array-list units are instantiated per element size (-DVERIF_ITEM_SIZE=n,
+see DESIGN C09 and contracts/array_list.h); writing ~200 near-identical JSON entries by hand would be error-prone.
+Run:  python3 units/C09/gen_units.py          (the check never runs this; units.json is the committed artefact)
+      python3 units/C09/gen_units.py 3 24     (development: only these sizes for every array-list function)"""
 import json, os, sys
 HERE = os.path.dirname(os.path.abspath(__file__))
 R = ["aws_raise_error_private"]
 GROW = R + ["aws_array_list_ensure_capacity"]
 CADICAL = ["--sat-solver", "cadical"]
+MINISAT = []  # cbmc default
 
-# (name, harness, enforce, replace, extra)
+SMALL = [1, 3, 8, 24]            # every operation
+LARGE = [127, 128, 129, 300]     # only where CBMC's array theory copes (cost grows with size^2), see units.json text
+INL = "include/aws/common/array_list.inl"
+SRC = "source/array_list.c"
+LL = "include/aws/common/linked_list.inl"
+
+# name -> (enforce, replace, extra unit fields, sizes, mutants on the size given as key)
 AL = [
- ("length", ["aws_array_list_length"], R, {}),
- ("capacity", ["aws_array_list_capacity"], R, {}),
- ("get_at", ["aws_array_list_get_at"], R, {}),
- ("get_at_ptr", ["aws_array_list_get_at_ptr"], R, {}),
- ("front", ["aws_array_list_front"], R, {}),
- ("back", ["aws_array_list_back"], R, {}),
- ("calc_necessary_size", ["aws_array_list_calc_necessary_size"], R, {}),
- ("ensure_capacity", ["aws_array_list_ensure_capacity"], R + ["aws_array_list_calc_necessary_size", "aws_mem_acquire", "aws_mem_release"], {}),
- ("set_at", ["aws_array_list_set_at"], GROW, {}),
- ("push_back", ["aws_array_list_push_back"], R + ["aws_array_list_set_at", "aws_last_error"], {}),
- ("push_front", ["aws_array_list_push_front"], GROW + ["aws_last_error", "memmove"], {}),
- ("pop_back", ["aws_array_list_pop_back"], R, {}),
- ("clear", ["aws_array_list_clear"], R, {}),
- ("pop_front_n", ["aws_array_list_pop_front_n"], R + ["aws_array_list_clear", "memmove"], {}),
- ("pop_front", ["aws_array_list_pop_front"], R + ["aws_array_list_pop_front_n"], {}),
- ("erase", ["aws_array_list_erase"], R + ["aws_array_list_pop_front", "aws_array_list_pop_back", "memmove"], {}),
- ("mem_swap_two_objects", ["aws_array_list_mem_swap"], R, {"mode": "complete", "unwind": 4}),
-] + [("mem_swap_slots_%d%d" % ab, ["aws_array_list_mem_swap"], R, {"mode": "complete", "unwind": 4, "harness": "h_mem_swap_%d%d" % ab})
+ ("length", ["aws_array_list_length"], R, {}, SMALL + LARGE),
+ ("capacity", ["aws_array_list_capacity"], R, {}, SMALL + LARGE),
+ ("get_at", ["aws_array_list_get_at"], R, {}, SMALL),
+ ("get_at_ptr", ["aws_array_list_get_at_ptr"], R, {}, SMALL),
+ ("front", ["aws_array_list_front"], R, {}, SMALL + LARGE),
+ ("back", ["aws_array_list_back"], R, {}, SMALL),
+ ("calc_necessary_size", ["aws_array_list_calc_necessary_size"], R, {}, SMALL + LARGE),
+ ("ensure_capacity", ["aws_array_list_ensure_capacity"], R + ["aws_array_list_calc_necessary_size", "aws_mem_acquire", "aws_mem_release"], {"timeout": 600}, SMALL),
+ ("set_at", ["aws_array_list_set_at"], GROW, {"timeout": 900}, SMALL),
+ ("push_back", ["aws_array_list_push_back"], R + ["aws_array_list_set_at", "aws_last_error"], {"timeout": 900}, SMALL),
+ ("push_front", ["aws_array_list_push_front"], GROW + ["aws_last_error", "memmove"], {"timeout": 900}, SMALL),
+ ("pop_back", ["aws_array_list_pop_back"], R, {}, SMALL),
+ ("clear", ["aws_array_list_clear"], R, {}, SMALL + LARGE),
+ ("pop_front_n", ["aws_array_list_pop_front_n"], R + ["aws_array_list_clear", "memmove"], {"timeout": 600}, SMALL),
+ ("pop_front", ["aws_array_list_pop_front"], R + ["aws_array_list_pop_front_n"], {"solver": MINISAT}, SMALL),
+ ("erase", ["aws_array_list_erase"], R + ["aws_array_list_pop_front", "aws_array_list_pop_back", "memmove"], {"timeout": 900}, SMALL),
+ ("mem_swap_two_objects", ["aws_array_list_mem_swap"], R, {"mode": "complete", "unwind": 4}, SMALL + LARGE),
+] + [("mem_swap_slots_%d%d" % ab, ["aws_array_list_mem_swap"], R, {"mode": "complete", "unwind": 4, "harness": "h_mem_swap_%d%d" % ab}, SMALL + LARGE)
      for ab in ((0, 1), (1, 0), (0, 2), (2, 0), (1, 2), (2, 1))] + [
- ("swap", ["aws_array_list_swap"], R + ["aws_array_list_mem_swap"], {}),
- ("copy", ["aws_array_list_copy"], R + ["aws_mem_acquire", "aws_mem_release"], {}),
- ("shrink_to_fit", ["aws_array_list_shrink_to_fit"], R + ["aws_mem_acquire", "aws_mem_release"], {}),
- ("swap_contents", ["aws_array_list_swap_contents"], R, {}),
- ("init_dynamic", ["aws_array_list_init_dynamic"], R + ["aws_mem_acquire"], {}),
- ("init_static", ["aws_array_list_init_static"], R, {}),
- ("init_static_from_initialized", ["aws_array_list_init_static_from_initialized"], R + ["aws_array_list_init_static"], {}),
- ("clean_up", ["aws_array_list_clean_up"], R + ["aws_mem_release"], {}),
- ("sort", ["aws_array_list_sort"], R + ["qsort"], {}),
+ ("swap", ["aws_array_list_swap"], R + ["aws_array_list_mem_swap"], {"solver": MINISAT, "timeout": 600}, SMALL),
+ ("copy", ["aws_array_list_copy"], R + ["aws_mem_acquire", "aws_mem_release"], {"timeout": 600}, SMALL),
+ ("shrink_to_fit", ["aws_array_list_shrink_to_fit"], R + ["aws_mem_acquire", "aws_mem_release"], {"timeout": 600}, SMALL),
+ ("swap_contents", ["aws_array_list_swap_contents"], R, {}, SMALL + LARGE),
+ ("init_dynamic", ["aws_array_list_init_dynamic"], R + ["aws_mem_acquire"], {}, SMALL + LARGE),
+ ("init_static", ["aws_array_list_init_static"], R, {}, SMALL + LARGE),
+ ("init_static_from_initialized", ["aws_array_list_init_static_from_initialized"], R + ["aws_array_list_init_static"], {}, SMALL + LARGE),
+ ("clean_up", ["aws_array_list_clean_up"], R + ["aws_mem_release"], {}, SMALL + LARGE),
+ ("sort", ["aws_array_list_sort"], R + ["qsort"], {}, SMALL + LARGE),
 ]
 
-def build(sizes_for, extra_units, meta):
+def M(file, find, repl, expect, note, **kw):
+    d = {"file": file, "find": find, "repl": repl, "expect": expect, "note": note}
+    d.update(kw)
+    return d
+
+# built-in mutants, attached to ONE size of the function's unit (unit name -> list)
+MUTANTS = {
+ "get_at_s24": [
+  M(INL, "memcpy(val, (void *)((uint8_t *)list->data + (list->item_size * index)), list->item_size);",
+    "memcpy(val, (void *)((uint8_t *)list->data + (list->item_size * index) + 1), list->item_size);",
+    r"postcondition|precondition_instance", "get_at reads one byte too far to the right"),
+  M(INL, "if (aws_array_list_length(list) > index) {\n        memcpy(val,", "if (aws_array_list_length(list) >= index) {\n        memcpy(val,",
+    r"postcondition|precondition_instance|assigns", "get_at accepts index == length")],
+ "get_at_ptr_s3": [
+  M(INL, "*val = (void *)((uint8_t *)list->data + (list->item_size * index));", "*val = (void *)((uint8_t *)list->data + (list->item_size * (index + 1)));",
+    r"postcondition", "get_at_ptr returns the next slot")],
+ "back_s3": [
+  M(INL, "memcpy(val, (void *)((uint8_t *)list->data + last_item_offset), list->item_size);", "memcpy(val, (void *)((uint8_t *)list->data), list->item_size);",
+    r"postcondition", "back returns the first element")],
+ "calc_necessary_size_s24": [
+  M(SRC, "aws_add_size_checked(index, 1, &index_inc)", "aws_add_size_checked(index, 0, &index_inc)", r"postcondition", "necessary size computed for index instead of index+1")],
+ "ensure_capacity_s3": [
+  M(SRC, "if (list->current_size < necessary_size) {", "if (list->current_size <= necessary_size) {", r"postcondition|assigns", "exact fit treated as too small"),
+  M(SRC, "size_t next_allocation_size = list->current_size << 1;", "size_t next_allocation_size = list->current_size << 2;", r"postcondition", "quadrupling instead of doubling"),
+  M(SRC, "memcpy(temp, list->data, list->current_size);", "memcpy(temp, list->data, list->current_size - 1);", r"postcondition", "last old byte not carried over on growth")],
+ "set_at_s3": [
+  M(INL, "if (index >= aws_array_list_length(list)) {", "if (index > aws_array_list_length(list)) {", r"postcondition", "set_at at index == length does not extend the list"),
+  M(INL, "memcpy((void *)((uint8_t *)list->data + (list->item_size * index)), val, list->item_size);",
+    "memcpy((void *)((uint8_t *)list->data + (list->item_size * index)), val, list->item_size - 1);", r"postcondition", "last byte of the element not stored")],
+ "push_back_s3": [
+  M(INL, "int err_code = aws_array_list_set_at(list, val, aws_array_list_length(list));", "int err_code = aws_array_list_set_at(list, val, aws_array_list_length(list) + 1);",
+    r"postcondition|assigns|precondition", "push_back leaves a gap"),
+  M(INL, "if (err_code && aws_last_error() == AWS_ERROR_INVALID_INDEX && !list->alloc) {\n        AWS_POSTCONDITION(aws_array_list_is_valid(list));\n        return aws_raise_error(AWS_ERROR_LIST_EXCEEDS_MAX_SIZE);\n    }\n\n    AWS_POSTCONDITION(aws_array_list_is_valid(list));\n    return err_code;",
+    "AWS_POSTCONDITION(aws_array_list_is_valid(list));\n    return err_code;", r"postcondition", "static-mode refusal keeps the inner error code")],
+ "push_front_s3": [
+  M(INL, "++list->length;", "", r"postcondition", "push_front forgets to count the new element"),
+  M(INL, "memmove((uint8_t *)list->data + list->item_size, list->data, orig_len * list->item_size);",
+    "memmove((uint8_t *)list->data + list->item_size, list->data, (orig_len - 1) * list->item_size);", r"postcondition|precondition", "last old element not moved up")],
+ "pop_back_s3": [
+  M(INL, "list->length--;", "", r"postcondition", "pop_back does not shorten the list"),
+  M(INL, "size_t last_item_offset = list->item_size * (aws_array_list_length(list) - 1);\n\n        memset(", "size_t last_item_offset = list->item_size * (aws_array_list_length(list));\n\n        memset(",
+    r"assigns|precondition_instance", "pop_back zeroes the slot behind the last element")],
+ "clear_s3": [
+  M(INL, "#endif\n        list->length = 0;", "#endif\n        list->length = 1;", r"postcondition", "clear leaves one element")],
+ "pop_front_n_s3": [
+  M(INL, "size_t popping_bytes = list->item_size * n;", "size_t popping_bytes = list->item_size * (n - 1);", r"postcondition|precondition", "pop_front_n moves from one element too early"),
+  M(INL, "list->length = remaining_items;", "list->length = remaining_items + 1;", r"postcondition", "pop_front_n keeps one element too many")],
+ "pop_front_s3": [
+  M(INL, "aws_array_list_pop_front_n(list, 1);", "aws_array_list_pop_front_n(list, 2);", r"postcondition|assigns", "pop_front drops two elements")],
+ "erase_s3": [
+  M(INL, "size_t trailing_items = (length - index) - 1;", "size_t trailing_items = (length - index);", r"precondition|assigns|postcondition", "erase moves one element too many (reads past the live range)"),
+  M(INL, "} else if (index == (length - 1)) {", "} else if (index == (length - 2)) {", r"postcondition", "erase of the last-but-one element only pops the back")],
+ "mem_swap_two_objects_s300": [
+  M(SRC, "size_t slice_count = item_size / SLICE;", "size_t slice_count = item_size / (SLICE * 2);", r"postcondition", "second 128-byte slice not swapped")],
+ "mem_swap_slots_01_s129": [
+  M(SRC, "size_t remainder = item_size & (SLICE - 1);", "size_t remainder = item_size & (SLICE - 2);", r"postcondition", "odd trailing byte not swapped")],
+ "mem_swap_slots_10_s3": [
+  M(SRC, "memcpy((void *)item2, (void *)temp, remainder);", "memcpy((void *)item2, (void *)temp, remainder - 1);", r"postcondition", "last byte of the second item keeps its old value")],
+ "swap_s3": [
+  M(SRC, "aws_array_list_get_at_ptr(list, &item2, b);", "aws_array_list_get_at_ptr(list, &item2, a);", r"precondition|postcondition", "swap exchanges a with itself")],
+ "copy_s3": [
+  M(SRC, "to->current_size = copy_size;", "", r"postcondition", "copy into a grown list keeps the old capacity field"),
+  M(SRC, "if (to->current_size >= copy_size) {", "if (to->current_size > copy_size) {", r"postcondition|assigns", "exact-fit destination is reallocated / refused")],
+ "shrink_to_fit_s3": [
+  M(SRC, "if (ideal_size < list->current_size) {", "if (ideal_size <= list->current_size) {", r"assigns|postcondition", "already tight list is reallocated"),
+  M(SRC, "memcpy(raw_data, list->data, ideal_size);", "memcpy(raw_data, list->data, ideal_size - 1);", r"postcondition", "last live byte lost on shrink")],
+ "swap_contents_s24": [
+  M(INL, "*list_b = tmp;", "*list_b = *list_a;", r"postcondition", "swap_contents duplicates one list")],
+ "init_dynamic_s24": [
+  M(INL, "list->current_size = allocation_size;", "", r"postcondition", "init_dynamic forgets the capacity")],
+ "init_static_s24": [
+  M(INL, "list->current_size = current_size;", "list->current_size = item_count;", r"postcondition", "init_static records the item count as byte size")],
+ "clean_up_s24": [
+  M(INL, "if (list->alloc && list->data) {\n        aws_mem_release(list->alloc, list->data);\n    }\n\n    AWS_ZERO_STRUCT(*list);\n}\n\nAWS_STATIC_IMPL\nvoid aws_array_list_clean_up_secure",
+    "if (list->alloc && list->data) {\n        aws_mem_release(list->alloc, list->data);\n    }\n\n    list->length = 0;\n}\n\nAWS_STATIC_IMPL\nvoid aws_array_list_clean_up_secure", r"postcondition", "clean_up leaves the dangling data pointer")],
+ "sort_s24": [
+  M(SRC, "qsort(list->data, aws_array_list_length(list), list->item_size, compare_fn);", "qsort(list->data, list->item_size, aws_array_list_length(list), compare_fn);", r"postcondition|precondition", "element count and element size exchanged in the qsort call")],
+ # linked list
+ "ll_insert_after": [M(LL, "    after->next->prev = to_add;\n", "", r"assertion", "insert_after does not fix the successor's prev")],
+ "ll_insert_before": [M(LL, "    before->prev->next = to_add;\n", "", r"assertion", "insert_before does not fix the predecessor's next")],
+ "ll_remove": [M(LL, "node->next->prev = node->prev;", "node->next->prev = node;", r"assertion", "remove leaves the successor pointing at the removed node")],
+ "ll_swap_nodes": [
+  M(LL, "    tmp.next->prev = a;\n", "", r"assertion", "swap_nodes does not fix b's old successor"),
+  M(LL, "struct aws_linked_list_node tmp = *b;\n    a->prev->next = b;", "struct aws_linked_list_node tmp = *b;\n    a->prev->next = b;\n    tmp = *b;", r"assertion", "adjacency snapshot taken after the first store (clobbered when b precedes a)")],
+ "ll_push_front": [M(LL, "aws_linked_list_insert_before(list->head.next, node);", "aws_linked_list_insert_after(list->head.next, node);", r"assertion|pointer", "push_front inserts behind the first element")],
+ "ll_pop_back": [M(LL, "struct aws_linked_list_node *back = aws_linked_list_back(list);", "struct aws_linked_list_node *back = aws_linked_list_front(list);", r"assertion", "pop_back removes the front element")],
+ "ll_swap_contents": [M(LL, "a->tail.prev->next = &a->tail;", "", r"assertion", "swap_contents leaves b's last node pointing at b's tail")],
+ "ll_move_all_back": [M(LL, "src_back->next = &dst->tail;", "src_back->next = &src->tail;", r"assertion", "moved chain still ends in the source's tail")],
+ "ll_move_all_front": [M(LL, "dst_front->prev = src_back;", "", r"assertion", "old first element of dst keeps head as predecessor")],
+}
+
+LEMMAS = ["erase", "slot", "ord", "popn", "next"]
+
+# linked list: (name, covers, LL_K, LL_NL)
+LLU = [
+ ("init", ["aws_linked_list_init", "aws_linked_list_empty", "aws_linked_list_is_valid"], 2, 1),
+ ("node_reset", ["aws_linked_list_node_reset"], 2, 0),
+ ("insert_after", ["aws_linked_list_insert_after"], 4, 0),
+ ("insert_before", ["aws_linked_list_insert_before"], 4, 0),
+ ("remove", ["aws_linked_list_remove", "aws_linked_list_node_reset"], 4, 0),
+ ("swap_nodes", ["aws_linked_list_swap_nodes"], 6, 0),
+ ("push_back", ["aws_linked_list_push_back", "aws_linked_list_insert_before"], 3, 1),
+ ("push_front", ["aws_linked_list_push_front", "aws_linked_list_insert_before"], 3, 1),
+ ("pop_back", ["aws_linked_list_pop_back", "aws_linked_list_back", "aws_linked_list_remove"], 3, 1),
+ ("pop_front", ["aws_linked_list_pop_front", "aws_linked_list_front", "aws_linked_list_remove"], 3, 1),
+ ("swap_contents", ["aws_linked_list_swap_contents", "aws_linked_list_init", "aws_linked_list_empty"], 5, 2),
+ ("move_all_back", ["aws_linked_list_move_all_back", "aws_linked_list_empty"], 4, 2),
+ ("move_all_front", ["aws_linked_list_move_all_front", "aws_linked_list_empty"], 4, 2),
+ ("observers", ["aws_linked_list_begin", "aws_linked_list_end", "aws_linked_list_rbegin", "aws_linked_list_rend", "aws_linked_list_front",
+                "aws_linked_list_back", "aws_linked_list_next", "aws_linked_list_prev", "aws_linked_list_empty", "aws_linked_list_is_valid",
+                "aws_linked_list_node_next_is_valid", "aws_linked_list_node_prev_is_valid", "aws_linked_list_node_is_in_list"], 3, 1),
+]
+
+META = {
+ "property": "C09", "level": "proof",
+ "explanation": "see META_TEXT in gen_units.py",
+}
+
+def build(only_sizes=None):
     units = []
-    for name, enforce, replace, extra in AL:
-        for sz in sizes_for(name):
-            u = {"name": "%s_s%d" % (name, sz), "harness": "h_" + name, "enforce": enforce, "replace": replace,
-                 "defines": ["-DVERIF_ITEM_SIZE=%d" % sz]}
+    for name, enforce, replace, extra, sizes in AL:
+        for sz in (only_sizes or sizes):
+            uname = "%s_s%d" % (name, sz)
+            u = {"name": uname, "harness": "h_" + name, "enforce": enforce, "replace": replace, "defines": ["-DVERIF_ITEM_SIZE=%d" % sz]}
             u.update(extra)
+            if uname in MUTANTS:
+                u["mutants"] = MUTANTS[uname]
             units.append(u)
-    spec = dict(meta)
-    spec["defaults"] = {"src": "array_list.c", "mode": "proof", "replace": R, "timeout": 300, "min_obligations": 80,
-                        "solver": CADICAL}
-    spec["units"] = units + extra_units
+    for sz in (only_sizes or [3, 24]):
+        for l in LEMMAS:
+            units.append({"name": "lemma_%s_s%d" % (l, sz), "harness": "h_lemma_" + l, "mode": "complete", "replace": [], "covers": [],
+                          "defines": ["-DVERIF_ITEM_SIZE=%d" % sz], "min_obligations": 1, "timeout": 600})
+    units.append({"name": "inv_forms_s3", "harness": "h_inv_forms", "mode": "complete", "replace": [], "covers": [], "defines": ["-DVERIF_ITEM_SIZE=3"], "min_obligations": 1, "timeout": 600})
+    units.append({"name": "inv_forms_s24", "harness": "h_inv_forms", "mode": "complete", "replace": [], "covers": [], "defines": ["-DVERIF_ITEM_SIZE=24"], "min_obligations": 1, "timeout": 600})
+    for name, covers, k, nl in LLU:
+        u = {"name": "ll_" + name, "src": "linked_list.c", "harness": "h_" + name, "mode": "complete", "replace": [], "covers": covers,
+             "unwind": 12, "defines": ["-DLL_K=%d" % k, "-DLL_NL=%d" % nl], "min_obligations": 30, "timeout": 900}
+        if "ll_" + name in MUTANTS:
+            u["mutants"] = MUTANTS["ll_" + name]
+        units.append(u)
+    units.append({"name": "error_slot", "src": "error_slot.c", "harness": "h_error_slot", "mode": "complete", "replace": [],
+                  "covers": ["aws_raise_error_private", "aws_last_error", "aws_raise_error"], "min_obligations": 2, "solver": MINISAT})
+    units.append({"name": "sort_native", "src": "sort_native.c", "mode": "native", "extra_src": ["$REPO/source/array_list.c"], "args": ["$SEED", "$TIER"],
+                  "covers": ["aws_array_list_sort"], "bound": "element sizes {1,2,3,8,24,127,128,129,300}, lengths 0..48 (thorough: 0..200), 4 (20) pseudo-random fillings each, seed VERIF_SEED",
+                  "min_obligations": 1, "ldflags": []})
+    spec = dict(META)
+    spec.update(json.load(open(os.path.join(HERE, "meta.json"))))
+    spec["defaults"] = {"src": "array_list.c", "mode": "proof", "replace": R, "timeout": 300, "min_obligations": 80, "solver": CADICAL}
+    spec["units"] = units
     return spec
 
 if __name__ == "__main__":
-    sizes = [int(x) for x in (sys.argv[1:] or ["24"])]
-    spec = build(lambda n: sizes, [], {"property": "C09", "level": "proof", "explanation": "wip", "assumptions": [], "not_decided": []})
+    sizes = [int(x) for x in sys.argv[1:]] or None
+    spec = build(sizes)
     json.dump(spec, open(os.path.join(HERE, "units.json"), "w"), indent=1)
     print(len(spec["units"]), "units")
